@@ -137,7 +137,9 @@ CHECKS = {
        'every flag/sequence-set/UID-set/size/internal-date key alone and negated, OR / top-level conjunction / keyset with NOT over one '
        'representative per key family (depth 2 quick, 3 thorough), on views of 3-4 messages with differing flags, sizes and dates, '
        'including a message expunged elsewhere but not yet announced; set numbers, sizes and dates are symbolic integers; obligation per '
-       '(program, message): returned <=> RFC 3501 6.4.4 semantics, proved by z3; no EXPUNGE in reply to non-UID SEARCH.',
+       '(program, message): returned <=> RFC 3501 6.4.4 semantics, proved by z3; no EXPUNGE in reply to non-UID SEARCH. Over the wire: '
+       '25 flag/sequence-set/UID-set/size programs rendered as SEARCH and UID SEARCH command text with symbolic numbers, parsed by the '
+       'real command parser and executed (the UID variant changes how results are reported, not what the keys mean).',
   note=TRUST + 'Flag assignments are enumerated, operands are symbolic. Outside: BODY/TEXT/HEADER/address/subject and sent-date keys '
        '(email package), two top-level keys of the same family (told apart by hash(SearchKey)).',
   technique='symbolic execution of the real search code with z3 against RFC semantics as a z3 term'),
